@@ -1,9 +1,12 @@
 (* C19 (protobuf half) -- a failed decode releases everything it allocated.
    The protobuf decoders have no raw-pointer decode template: values are built with safe Rust only, so dropping the
    error drops the partial value.  That claim is the regenerated inventory below; the one site that touches ownership
-   (the drop guard of string::merge) is modelled in Guard.v.  The implementation half is measured on every run
-   (pv/props/c19pb.py: live heap and input references after a failed Message::decode).  Only statements. *)
-From PVPb Require Import Guard Proofs.GuardP.
+   (the drop guard of string::merge) is modelled in Guard.v.  WHERE the owners are -- targets, locals, overwritten values --
+   is modelled in Own.v (the decoders of Msg.v with the state of the target on every exit and a ghost ledger of live heap
+   blocks / handles on the input).  The implementation half is measured on every run (pv/props/c19pb.py: live heap and
+   input references while the result of Message::decode is held and after it has been dropped, compared with the
+   ledger the extracted model predicts).  Only statements. *)
+From PVPb Require Import Guard Proofs.GuardP Own Proofs.OwnP.
 Open Scope Z_scope.
 
 (* every unsafe / set_len / mem::forget / ManuallyDrop / from_raw_parts / into_raw / Box::leak site of
@@ -23,3 +26,61 @@ Theorem C19_pb_guard : forall junk wt s,
   (forall v s', r = OOk v s' -> content = vbytes v).
 Proof. exact guard_sound. Qed.
 Print Assumptions C19_pb_guard.
+
+(* C19_pb_no_leak.  own_decode sc i s = (outcome, ledger) is Message::decode of message #i with the ownership made
+   explicit (Own.v): `let mut message = Self::default(); Self::merge(&mut message, &mut buf)?; Ok(message)`, every
+   function below it returning the state of its `&mut` target on EVERY exit, every local dropped where the code between
+   its creation and its move fails, every overwritten value released.  On EVERY schema, message and reader state (any
+   byte string, valid or not; no hypothesis):
+     - the outcome is the one of the decoder model the other properties speak about (value, DecodeError or panic, and the
+       reader state);
+     - after a failure -- DecodeError or unwinding -- the ledger is EMPTY (lzero: all three counters): no heap block
+       allocated by the decode is live and no handle on the input buffer survives the drop of the partially built message;
+     - after a success the live heap blocks and the live handles of non-empty slices are EXACTLY what the returned message
+       holds (same_hr .. (own_msg ..): the buffers of its non-empty Vecs and Strings, the tables of its non-empty maps, one
+       handle per non-empty Bytes and per FastStr longer than the inline capacity, at every nesting level).
+   The third counter (l_tail) is the zero-length Bytes cut at the very end of the input, which pins the buffer although
+   it is empty (Bytes::split_to(len) with len = remaining returns the whole handle): it cannot be read off the value,
+   the ledger carries it apart; it is there on success only and goes with the message. *)
+Theorem C19_pb_no_leak : forall sc i s,
+  fst (own_decode sc i s) = msg_decode sc i s /\
+  match fst (own_decode sc i s) with
+  | OOk v _ => same_hr (snd (own_decode sc i s)) (own_msg depth_fuel sc i v)
+  | _ => snd (own_decode sc i s) = lzero
+  end.
+Proof. exact no_leak. Qed.
+Print Assumptions C19_pb_no_leak.
+
+(* Message::merge into a message x the caller owns, from a ledger that is exactly what x holds: on every exit the
+   ledger is exactly what the (possibly partially merged) message holds -- nothing beside it is live --, and once the
+   caller drops a message whose merge failed nothing is left *)
+Theorem C19_pb_merge_no_leak : forall sc i x s L,
+  erase (pmsg_merge sc i x s L) = msg_merge sc i x s /\
+  match pmsg_merge sc i x s (own_msg depth_fuel sc i x) with
+  | POk x' _ L' | PErr _ x' _ L' | PPanic _ x' L' => same_hr L' (own_msg depth_fuel sc i x')
+  end /\
+  match fst (own_merge_then_drop sc i x s) with
+  | OOk x' _ => same_hr (snd (own_merge_then_drop sc i x s)) (own_msg depth_fuel sc i x')
+  | _ => snd (own_merge_then_drop sc i x s) = lzero
+  end.
+Proof. exact merge_no_leak. Qed.
+Print Assumptions C19_pb_merge_no_leak.
+
+(* the invariant behind both, for merge_field of every message at every depth budget: the ledger moves exactly with
+   what the target holds (L' - own target' = L - own target in heap blocks and handles, on success, `?` and unwinding) *)
+Theorem C19_pb_conservation : forall sc d i tag wt ctx, conserves (own_msg d sc i) (pmerge_field d sc i tag wt ctx).
+Proof. exact conserves_pmerge_field. Qed.
+Print Assumptions C19_pb_conservation.
+
+(* the wrapper impls of types.rs (bool / integers / floats / String / Vec<u8> / Bytes / ()) *)
+Theorem C19_pb_wrapper_no_leak : forall m s,
+  fst (own_wrapper_decode m s) = wrapper_decode m s /\
+  match fst (own_wrapper_decode m s) with
+  | OOk v _ => same_hr (snd (own_wrapper_decode m s)) (own_wrapper m v)
+  | _ => snd (own_wrapper_decode m s) = lzero
+  end.
+Proof. exact wrapper_no_leak. Qed.
+Print Assumptions C19_pb_wrapper_no_leak.
+(* non-vacuity: Proofs/OwnP.v partial_message_is_dropped (the partial message holds 2 blocks + 2 handles when the decode
+   fails), local_is_dropped, overwrite_releases, success_holds_its_resources, tail_handle, tail_handle_dropped.
+   NOT in the model (named in Own.v): the Box of recursive message fields, container capacities. *)
